@@ -114,7 +114,7 @@ def batches(cases, n):
         yield cur
 
 
-def campaign(chk, fam, cases, proof_ok, proof_detail, signature_of=None, label="", batch=1, reset="reset"):
+def campaign(chk, fam, cases, proof_ok, proof_detail, signature_of=None, label="", batch=1, reset="reset", min_ops=2):
     """run all cases; classify; report.  cases: iterable of lists of op lines.
     With batch > 1 several cases are concatenated (separated by a `reset` op) into one run of
     both sides; a batch that shows any difference is re-run case by case."""
@@ -128,7 +128,7 @@ def campaign(chk, fam, cases, proof_ok, proof_detail, signature_of=None, label="
             for c in b:
                 joined += list(c) + [reset]
             for c in b:
-                chk.count("\n".join(c), nontrivial=len(c) > 1)
+                chk.count("\n".join(c), nontrivial=len(c) >= min_ops)
                 chk.sample(list(c)[:40], cap=3)
             if judge(fam, joined) is None:
                 chk.cov["traces_validated_against_impl"] += len(b)
@@ -140,7 +140,7 @@ def campaign(chk, fam, cases, proof_ok, proof_detail, signature_of=None, label="
         counted = False
     for ops in todo:
         if not counted:
-            chk.count("\n".join(ops), nontrivial=len(ops) > 1)
+            chk.count("\n".join(ops), nontrivial=len(ops) >= min_ops)
             chk.sample(list(ops)[:40], cap=3)
         ops = list(ops)
         r = judge(fam, ops)
